@@ -384,3 +384,38 @@ def default_inline(core):
             return None
         return hf
     return pol
+
+
+def _heads(t, acc):
+    if isinstance(t, (tuple, list)):
+        if t and isinstance(t[0], str) and t[0] in ("?", "var", "fn", "macro") and len(t) > 1:
+            acc.add((t[0], t[1] if isinstance(t[1], str) else None))
+        for x in t:
+            _heads(x, acc)
+    return acc
+
+
+def verdict(got, want):
+    """True: the normal forms agree. None: they differ, but `got` contains constructs the normaliser does not model or the oracle
+    does not speak about (an unresolved local, a call of a helper it does not know, an unmodelled expression kind), so the difference may
+    be a refactoring rather than a different operation. False: they differ within the modelled vocabulary (operator, operand, order,
+    constant): a different operation."""
+    if got == want:
+        return True
+    g, w = _heads(got, set()), _heads(want, set())
+    extra = {h for h in g - w if h[0] in ("?", "var", "fn", "macro")}
+    return None if extra else False
+
+
+def both(*vs):
+    """conjunction of tri-state verdicts"""
+    if any(v is False for v in vs):
+        return False
+    if any(v is None for v in vs):
+        return None
+    return True
+
+
+def verdict_opt(got, want):
+    """verdict for a value that may be missing (arm restructured: no single value found) -> undecided"""
+    return None if got is None else verdict(got, want)
